@@ -209,7 +209,7 @@ func runJob(tier string, idx int, ss []*prog.Shape) ([]prog.Result, []*prog.Resu
 	cfg := prog.BatchConfig{
 		MCDir: mc, RelDir: rel + "w", Parquetgen: os.Getenv("VERIF_PARQUETGEN"),
 		RunnerPkg: "verif/mc/checks/c15/runner", Env: []string{"PROGRUN_MODE=c15w", "C15_DATA=" + data},
-		BuildP: 3, Timeout: 15 * time.Minute, GoCache: os.Getenv("VERIF_SCRATCH_GOCACHE"),
+		BuildP: 3, Timeout: 15 * time.Minute, GoCache: scratchCache(),
 	}
 	r1, err := prog.RunBatch(cfg, progs)
 	if err != nil {
@@ -243,6 +243,9 @@ func runJob(tier string, idx int, ss []*prog.Shape) ([]prog.Result, []*prog.Resu
 }
 
 func run(c *fw.Ctx) {
+	if c.Thorough() {
+		cacheShard = c.Shard // worker-private scratch cache, trimmed between batches
+	}
 	ss := shapes(c.Thorough())
 	c.Bound("programs", len(ss))
 	c.Bound("grammar", "no repeated fields; leaves {int32,int64,float32,float64,bool,string} x {required, optional}; groups {required, optional} with unique names; <=3 fields per struct; quick depth<=2 & <=2 leaves, thorough depth<=3 & <=3 leaves; leaf types rotate by position (1 / 2 rotations) plus every type in every single-leaf context")
@@ -259,6 +262,9 @@ func run(c *fw.Ctx) {
 		lo, hi := b*per, (b+1)*per
 		if hi > len(ss) {
 			hi = len(ss)
+		}
+		if c.Thorough() {
+			prog.TrimCache(scratchCache(), 3<<30)
 		}
 		r1, r2, err := runJob(c.Tier, b, ss[lo:hi])
 		if err != nil {
@@ -328,6 +334,19 @@ func replay(c *fw.Ctx, kind string, data json.RawMessage) string {
 		return fmt.Sprintf("fails differently now: %v", vs[0])
 	}
 	return ""
+}
+
+// scratchCache is the build cache for the generated programs: the persistent
+// shared one in the quick tier (set by vrun), a worker-private directory under
+// the run's scratch cache in the thorough tier (trimmed between batches).
+var cacheShard = -1
+
+func scratchCache() string {
+	base := os.Getenv("VERIF_SCRATCH_GOCACHE")
+	if base == "" || cacheShard < 0 {
+		return base
+	}
+	return filepath.Join(base, fmt.Sprintf("w%d", cacheShard))
 }
 
 // Main runs the check.
